@@ -17,4 +17,5 @@ G_Fn == C_Fn
 G_Spelling == C_Spelling
 G_Renames == C_Renames
 G_KwRenames == C_KwRenames
+G_ClassName == C_ClassName
 =============================================================================
